@@ -67,6 +67,9 @@ extern void (*g_preempt_hook)();
 extern void (*g_access_hook)(const void *addr, unsigned size, int is_store);
 // look up the block containing addr: returns owner id or -1 when unknown
 int seams_block_owner(const void *addr);
+// same, also returns the block's extent; g_alloc_epoch changes whenever the live set changes (lets callers cache)
+int seams_block_owner_ex(const void *addr, uintptr_t *lo, uintptr_t *hi);
+extern uint64_t g_alloc_epoch;
 // writable statics of libhtp (name, address, size): the watch list of the shared-memory oracle, from VERIF_STATICS
 struct WatchedStatic { std::string name; uintptr_t addr; size_t size; };
 extern std::vector<WatchedStatic> g_watched_statics;
